@@ -7,3 +7,5 @@ print(frontend_ir.generate(which=("server", "client")))
 from translate import mutation_sites
 import common
 print("mutation sites:", len(mutation_sites.generate(common.REPO, os.path.join(common.LEAN, "SSEPyVerif", "Generated", "MutationSites.lean"))))
+from translate import wire_layout
+print("wire layouts:", len(wire_layout.generate(common.REPO, os.path.join(common.LEAN, "SSEPyVerif", "Generated", "WireLayout.lean"))))
